@@ -20,7 +20,7 @@ SPEC = {
             "action the multiplicity of every deposited hill in every walker's total bias (probed at the hill centres) must "
             "be 1 for own hills and <= 1 for peers' hills, never a hill that was not deposited; right after a walker's own "
             "synchronisation it must hold every hill a peer had published before the peer's last synchronisation; at quiescence all are 1"
-            " Later additions: metadynamics walkers whose state files are rewritten every 3 or 4 steps while they synchronise every step (three step orders each); a walker outside the grid (peer 1.5/0.5/3.5 bins inside the boundary or outside, with and without own hills, update frequencies 1-2, restart frequencies 2-3, three step orders): its energy there is its own hills plus a whole number of the peer's, between those published and those deposited; both walkers 12.5 bins outside the grid.",
+            " Later additions: metadynamics walkers whose state files are rewritten every 3 or 4 steps while they synchronise every step (three step orders each); a walker outside the grid (peer 1.5/0.5/3.5 bins inside the boundary or outside, with and without own hills, update frequencies 1-2, restart frequencies 2-3, three step orders): its energy there is its own hills plus a whole number of the peer's, between those published and those deposited; both walkers 12.5 bins outside the grid; well-tempered heights of two walkers at one bin centre (each height must be hillWeight*exp(-V/k dT) with V its own earlier hills plus the first k hills of the peer, k between those the peer had published at the walker's last synchronisation and those deposited).",
     "assumptions": ["the engine's replica communication is modelled by the controller: reliable, ordered per pair, buffered or rendezvous",
                     "dictated positions/forces; hill centres 1.0 apart so that multiplicities can be read from the energy",
                     "files are written through the real filesystem in one scratch directory; a peer's in-flight write is modelled as a byte prefix of its hills file"],
